@@ -254,6 +254,11 @@ func run(sc *scenario, scratch string) ([]map[string]any, error) {
 		if len(sc.RaceAt) == 2 && si == sc.RaceAt[0] && si+1 < len(sc.Steps) {
 			park = armParker(streamActor, sc.RaceAt[1])
 		}
+		if park != nil && si > sc.RaceAt[0]+1 {
+			// the racing step was skipped (nothing on the wire to act on): never leave the stream parked
+			park.free(streamActor)
+			park = nil
+		}
 		switch st.Op {
 		case "Open":
 			var err error
@@ -322,6 +327,13 @@ func run(sc *scenario, scratch string) ([]map[string]any, error) {
 			m, ok := nthWire(st.J)
 			if !ok {
 				s.mu.Unlock()
+				if park != nil && si == sc.RaceAt[0]+1 {
+					park.free(streamActor)
+					park = nil
+					if err := quiesce("Race"); err != nil {
+						return nil, err
+					}
+				}
 				continue
 			}
 			id := s.ackID[m]
